@@ -20,8 +20,10 @@ type SpecGen struct {
 	o     Options
 	pkg   *types.Package
 	pfx   string
-	heaps [][2]string
-	hidx  map[string]int
+	keys  []string            // global table of heap cell keys
+	kidx  map[string]int      // key -> index (SMT name h<idx>)
+	ksort map[string]string   // key -> sort
+	rs    map[string][]string // type ID -> read set (keys, in table order)
 	used  map[string]*Type
 	order []string
 	ctr   strings.Builder
@@ -36,7 +38,7 @@ func (j *Job) PkgPath() string { return "vbasis/gen/" + j.Name }
 
 func NewSpecGen(e *vc.Engine, j *Job) *SpecGen {
 	return &SpecGen{e: e, job: j, s: j.Schema, o: j.Opts, pkg: e.TypesPkg(j.PkgPath()), pfx: j.Name,
-		hidx: map[string]int{}, used: map[string]*Type{}, Want: map[string]bool{}}
+		kidx: map[string]int{}, ksort: map[string]string{}, rs: map[string][]string{}, used: map[string]*Type{}, Want: map[string]bool{}}
 }
 
 func (g *SpecGen) errf(format string, a ...interface{}) {
@@ -153,29 +155,165 @@ func (g *SpecGen) flat(t *Type) []string {
 	return nil
 }
 
-func (g *SpecGen) hp() string {
+// key registers a heap cell key and returns its index.
+func (g *SpecGen) key(k, sort string) int {
+	if i, ok := g.kidx[k]; ok {
+		return i
+	}
+	g.kidx[k] = len(g.keys)
+	g.keys = append(g.keys, k)
+	g.ksort[k] = sort
+	return len(g.keys) - 1
+}
+
+// locKeys lists the cells that hold a value of Go type t stored at a heap location.
+func (g *SpecGen) locKeys(t types.Type, root types.Type, names []string) []string {
+	if st, ok := t.Underlying().(*types.Struct); ok {
+		if root == nil {
+			root = t
+			names = nil
+		}
+		var out []string
+		for i := 0; i < st.NumFields(); i++ {
+			out = append(out, g.locKeys(st.Field(i).Type(), root, append(append([]string(nil), names...), st.Field(i).Name()))...)
+		}
+		return out
+	}
+	var k string
+	if root != nil {
+		k = vc.FieldMapKey(root, names)
+	} else {
+		k = vc.ElemMapKey(t)
+	}
+	g.key(k, "(Array Loc "+vc.SortOf(t)+")")
+	return []string{k}
+}
+
+// readSet computes (as a fixpoint over the type graph) the heap cells the reference
+// functions of each type read: element cells of arrays, pointee cells of message and
+// union members. Values held directly (struct fields, scalars) are arguments, not heap.
+func (g *SpecGen) computeReadSets() {
+	sets := map[string]map[string]bool{}
+	for _, id := range g.order {
+		sets[id] = map[string]bool{}
+	}
+	addAll := func(dst map[string]bool, ks []string) bool {
+		ch := false
+		for _, k := range ks {
+			if !dst[k] {
+				dst[k] = true
+				ch = true
+			}
+		}
+		return ch
+	}
+	setKeys := func(m map[string]bool) []string {
+		var out []string
+		for k := range m {
+			out = append(out, k)
+		}
+		return out
+	}
+	for changed := true; changed; {
+		changed = false
+		for _, id := range g.order {
+			t := g.used[id]
+			dst := sets[id]
+			switch t.Kind {
+			case Arr:
+				if gt := g.goType(t.Elem); gt != nil {
+					changed = addAll(dst, g.locKeys(gt, nil, nil)) || changed
+				}
+				changed = addAll(dst, setKeys(sets[t.Elem.ID()])) || changed
+			case Rec:
+				r := g.s.record(t.Name)
+				switch r.Kind {
+				case Struct:
+					for _, f := range r.Fields {
+						changed = addAll(dst, setKeys(sets[f.Type.ID()])) || changed
+					}
+				case Message:
+					for _, f := range r.Fields {
+						if f.Type.Kind == Prim && f.Type.Name == "guid" {
+							g.key("E$uint8", "(Array Loc Int)")
+							changed = addAll(dst, []string{"E$uint8"}) || changed
+						} else if gt := g.goType(f.Type); gt != nil {
+							changed = addAll(dst, g.locKeys(gt, nil, nil)) || changed
+						}
+						changed = addAll(dst, setKeys(sets[f.Type.ID()])) || changed
+					}
+				case Union:
+					for _, b := range r.Branches {
+						if gt := g.goType(R(b.Name)); gt != nil {
+							changed = addAll(dst, g.locKeys(gt, nil, nil)) || changed
+						}
+						changed = addAll(dst, setKeys(sets[b.Name])) || changed
+					}
+				}
+			}
+		}
+	}
+	for id, m := range sets {
+		var ks []string
+		for k := range m {
+			ks = append(ks, k)
+		}
+		sort.Slice(ks, func(i, j int) bool { return g.kidx[ks[i]] < g.kidx[ks[j]] })
+		g.rs[id] = ks
+	}
+}
+
+func (g *SpecGen) hp(id string) string {
 	var ps []string
-	for i, h := range g.heaps {
-		ps = append(ps, fmt.Sprintf("(h%d %s)", i, h[1]))
+	for _, k := range g.rs[id] {
+		ps = append(ps, fmt.Sprintf("(h%d %s)", g.kidx[k], g.ksort[k]))
 	}
 	return strings.Join(ps, " ")
 }
 
-func (g *SpecGen) ha() string {
+func (g *SpecGen) ha(id string) string {
 	var ps []string
-	for i := range g.heaps {
-		ps = append(ps, fmt.Sprintf("h%d", i))
+	for _, k := range g.rs[id] {
+		ps = append(ps, fmt.Sprintf("h%d", g.kidx[k]))
 	}
 	return strings.Join(ps, " ")
 }
 
 func (g *SpecGen) h(key string) string {
-	i, ok := g.hidx[key]
+	i, ok := g.kidx[key]
 	if !ok {
-		g.errf("heap map %s is not in the bundle", key)
+		g.errf("heap cell %s is not registered", key)
 		return "h0"
 	}
 	return fmt.Sprintf("h%d", i)
+}
+
+// wfHs is the SMT formula "every slice stored in the cells read by type id is well formed".
+func (g *SpecGen) wfHs(id string) string {
+	var cs []string
+	for _, k := range g.rs[id] {
+		if g.ksort[k] == "(Array Loc Slice)" {
+			cs = append(cs, fmt.Sprintf("(forall ((k Loc)) (! (wf-slice (select h%d k)) :pattern ((select h%d k))))", g.kidx[k], g.kidx[k]))
+		}
+	}
+	if len(cs) == 0 {
+		return "true"
+	}
+	return "(and " + strings.Join(cs, " ") + ")"
+}
+
+// app renders an application of a reference function, omitting empty argument groups.
+func app(fn string, groups ...string) string {
+	var parts []string
+	for _, gp := range groups {
+		if strings.TrimSpace(gp) != "" {
+			parts = append(parts, gp)
+		}
+	}
+	if len(parts) == 0 {
+		return fn
+	}
+	return "(" + fn + " " + strings.Join(parts, " ") + ")"
 }
 
 func vars(prefix string, sorts []string) (decl string, args []string) {
@@ -216,6 +354,7 @@ func (g *SpecGen) loadGo(t types.Type, root types.Type, names []string, loc stri
 	} else {
 		key = vc.ElemMapKey(t)
 	}
+	g.key(key, "(Array Loc "+vc.SortOf(t)+")")
 	return []string{fmt.Sprintf("(select %s %s)", g.h(key), loc)}
 }
 
@@ -254,7 +393,7 @@ func (g *SpecGen) encTerm(t *Type, tr string, c []string) string {
 			return fmt.Sprintf("(Ew8 %s (let ((tk (dateTicks %s %s %s))) %s))", tr, c[0], c[1], c[2], toU("tk", 64))
 		}
 	case Arr, Rec, MapK:
-		return fmt.Sprintf("(%s %s %s %s)", g.fn("enc", t.ID()), g.ha(), tr, strings.Join(c, " "))
+		return app(g.fn("enc", t.ID()), g.ha(t.ID()), tr, strings.Join(c, " "))
 	}
 	g.errf("encTerm: unsupported type %s", t.ID())
 	return tr
@@ -267,83 +406,87 @@ func (g *SpecGen) sizeTerm(t *Type, c []string) string {
 	if t.Kind == Prim && t.Name == "string" {
 		return fmt.Sprintf("(+ 4 (slen %s))", c[0])
 	}
-	return fmt.Sprintf("(%s %s %s)", g.fn("size", t.ID()), g.ha(), strings.Join(c, " "))
+	return app(g.fn("size", t.ID()), g.ha(t.ID()), strings.Join(c, " "))
 }
 
 func isByteT(t *Type) bool { return t.Kind == Prim && (t.Name == "byte" || t.Name == "uint8") }
 
+// axiom renders (assert (forall (decls) (! body :pattern (pat)))) and degrades gracefully without variables.
+func axiom(decls []string, body, pat string) string {
+	var ds []string
+	for _, d := range decls {
+		if strings.TrimSpace(d) != "" {
+			ds = append(ds, d)
+		}
+	}
+	if len(ds) == 0 {
+		return "(assert " + body + ")\n"
+	}
+	return fmt.Sprintf("(assert (forall (%s) (! %s :pattern (%s))))\n", strings.Join(ds, " "), body, pat)
+}
+
 // emitSMT writes the definitional axioms of the reference functions.
 func (g *SpecGen) emitSMT() {
 	w := &g.smt
-	HP, HA := g.hp(), g.ha()
-	// a well-formed heap holds well-formed slices everywhere
-	var wfc []string
-	for i, h := range g.heaps {
-		if h[1] == "(Array Loc Slice)" {
-			wfc = append(wfc, fmt.Sprintf("(forall ((k Loc)) (! (wf-slice (select h%d k)) :pattern ((select h%d k))))", i, i))
-		}
-	}
-	if len(wfc) == 0 {
-		wfc = append(wfc, "true")
-	}
-	fmt.Fprintf(w, "(define-fun %s (%s) Bool (and %s true))\n", g.fn("wfHs", ""), HP, strings.Join(wfc, " "))
 	for _, id := range g.order {
 		t := g.used[id]
 		if t.Kind == MapK {
 			g.errf("maps are not yet covered by the reference functions (%s)", id)
 			continue
 		}
+		HP, HA := g.hp(id), g.ha(id)
 		decl, c := vars("c", g.flat(t))
 		encF, sizeF := g.fn("enc", id), g.fn("size", id)
 		ca := strings.Join(c, " ")
+		encApp := app(encF, HA, "t", ca)
+		sizeApp := app(sizeF, HA, ca)
 		switch t.Kind {
 		case Prim, EnumK:
-			fmt.Fprintf(w, "(assert (forall (%s (t Tr) %s) (! (= (%s %s t %s) %s) :pattern ((%s %s t %s)))))\n", HP, decl, encF, HA, ca, g.encTerm(t, "t", c), encF, HA, ca)
-			fmt.Fprintf(w, "(assert (forall (%s %s) (! (= (%s %s %s) %s) :pattern ((%s %s %s)))))\n", HP, decl, sizeF, HA, ca, g.sizeTerm(t, c), sizeF, HA, ca)
+			w.WriteString(axiom([]string{HP, "(t Tr)", decl}, fmt.Sprintf("(= %s %s)", encApp, g.encTerm(t, "t", c)), encApp))
+			w.WriteString(axiom([]string{HP, decl}, fmt.Sprintf("(= %s %s)", sizeApp, g.sizeTerm(t, c)), sizeApp))
 		case Arr:
 			s := c[0]
 			if isByteT(t.Elem) {
-				fmt.Fprintf(w, "(assert (forall (%s (t Tr) %s) (! (= (%s %s t %s) (tr.raw (Ew4 t (u32w (s-len %s))) %s (s-loc %s) (s-len %s))) :pattern ((%s %s t %s)))))\n",
-					HP, decl, encF, HA, s, s, g.h("E$uint8"), s, s, encF, HA, s)
-				fmt.Fprintf(w, "(assert (forall (%s %s) (! (= (%s %s %s) (+ 4 (s-len %s))) :pattern ((%s %s %s)))))\n", HP, decl, sizeF, HA, s, s, sizeF, HA, s)
+				w.WriteString(axiom([]string{HP, "(t Tr)", decl}, fmt.Sprintf("(= %s (tr.raw (Ew4 t (u32w (s-len %s))) %s (s-loc %s) (s-len %s)))", encApp, s, g.h("E$uint8"), s, s), encApp))
+				w.WriteString(axiom([]string{HP, decl}, fmt.Sprintf("(= %s (+ 4 (s-len %s)))", sizeApp, s), sizeApp))
 				continue
 			}
 			encel, sizeel := g.fn("encel", id), g.fn("sizeel", id)
 			el := g.loadAt(t.Elem, fmt.Sprintf("(loc+ (s-loc %s) (- i 1))", s))
 			fixed := g.s.FixedSize(t.Elem)
+			encelAt := func(tr, i string) string { return app(encel, HA, tr, s, i) }
+			sizeelAt := func(i string) string { return app(sizeel, HA, s, i) }
 			// base and (marker-triggered) unfolding
-			fmt.Fprintf(w, "(assert (forall (%s (t Tr) %s) (! (= (%s %s t %s 0) t) :pattern ((%s %s t %s 0)))))\n", HP, decl, encel, HA, s, encel, HA, s)
-			fmt.Fprintf(w, "(assert (forall (%s (t Tr) %s (i Int)) (! (=> (> i 0) (= (%s %s t %s i) %s)) :pattern ((UnfT (%s %s t %s i))))))\n",
-				HP, decl, encel, HA, s, g.encTerm(t.Elem, fmt.Sprintf("(%s %s t %s (- i 1))", encel, HA, s), el), encel, HA, s)
+			w.WriteString(axiom([]string{HP, "(t Tr)", decl}, fmt.Sprintf("(= %s t)", encelAt("t", "0")), encelAt("t", "0")))
+			w.WriteString(axiom([]string{HP, "(t Tr)", decl, "(i Int)"},
+				fmt.Sprintf("(=> (> i 0) (= %s %s))", encelAt("t", "i"), g.encTerm(t.Elem, encelAt("t", "(- i 1)"), el)), "(UnfT "+encelAt("t", "i")+")"))
 			if fixed > 0 {
-				// fixed-size elements: closed form
-				fmt.Fprintf(w, "(assert (forall (%s %s (i Int)) (! (= (%s %s %s i) (* i %d)) :pattern ((%s %s %s i)))))\n", HP, decl, sizeel, HA, s, fixed, sizeel, HA, s)
+				w.WriteString(axiom([]string{HP, decl, "(i Int)"}, fmt.Sprintf("(= %s (* i %d))", sizeelAt("i"), fixed), sizeelAt("i")))
 			} else {
-				fmt.Fprintf(w, "(assert (forall (%s %s) (! (= (%s %s %s 0) 0) :pattern ((%s %s %s 0)))))\n", HP, decl, sizeel, HA, s, sizeel, HA, s)
-				fmt.Fprintf(w, "(assert (forall (%s %s (i Int)) (! (=> (> i 0) (= (%s %s %s i) (+ (%s %s %s (- i 1)) %s))) :pattern ((UnfI (%s %s %s i))))))\n",
-					HP, decl, sizeel, HA, s, sizeel, HA, s, g.sizeTerm(t.Elem, el), sizeel, HA, s)
+				w.WriteString(axiom([]string{HP, decl}, fmt.Sprintf("(= %s 0)", sizeelAt("0")), sizeelAt("0")))
+				w.WriteString(axiom([]string{HP, decl, "(i Int)"},
+					fmt.Sprintf("(=> (> i 0) (= %s (+ %s %s)))", sizeelAt("i"), sizeelAt("(- i 1)"), g.sizeTerm(t.Elem, el)), "(UnfI "+sizeelAt("i")+")"))
 				// spec-level lemmas about the reference on well-formed heaps (by induction on i; see DESIGN section 8)
-				fmt.Fprintf(w, "(assert (forall (%s %s (i Int) (j Int)) (! (=> (and (%s %s) (<= 0 i) (<= i j)) (<= (%s %s %s i) (%s %s %s j))) :pattern ((%s %s %s i) (%s %s %s j)))))\n",
-					HP, decl, g.fn("wfHs", ""), HA, sizeel, HA, s, sizeel, HA, s, sizeel, HA, s, sizeel, HA, s)
-				fmt.Fprintf(w, "(assert (forall (%s %s (i Int)) (! (=> (and (%s %s) (<= 0 i)) (>= (%s %s %s i) 0)) :pattern ((%s %s %s i)))))\n", HP, decl, g.fn("wfHs", ""), HA, sizeel, HA, s, sizeel, HA, s)
+				w.WriteString(axiom([]string{HP, decl, "(i Int)", "(j Int)"},
+					fmt.Sprintf("(=> (and %s (<= 0 i) (<= i j)) (<= %s %s))", g.wfHs(id), sizeelAt("i"), sizeelAt("j")), sizeelAt("i")+" "+sizeelAt("j")))
+				w.WriteString(axiom([]string{HP, decl, "(i Int)"},
+					fmt.Sprintf("(=> (and %s (<= 0 i)) (>= %s 0))", g.wfHs(id), sizeelAt("i")), sizeelAt("i")))
 			}
 			// whole array
-			fmt.Fprintf(w, "(assert (forall (%s (t Tr) %s) (! (= (%s %s t %s) (%s %s (Ew4 t (u32w (s-len %s))) %s (s-len %s))) :pattern ((%s %s t %s)))))\n",
-				HP, decl, encF, HA, s, encel, HA, s, s, s, encF, HA, s)
-			fmt.Fprintf(w, "(assert (forall (%s %s) (! (= (%s %s %s) (+ 4 (%s %s %s (s-len %s)))) :pattern ((%s %s %s)))))\n", HP, decl, sizeF, HA, s, sizeel, HA, s, s, sizeF, HA, s)
+			w.WriteString(axiom([]string{HP, "(t Tr)", decl}, fmt.Sprintf("(= %s %s)", encApp, encelAt(fmt.Sprintf("(Ew4 t (u32w (s-len %s)))", s), fmt.Sprintf("(s-len %s)", s))), encApp))
+			w.WriteString(axiom([]string{HP, decl}, fmt.Sprintf("(= %s (+ 4 %s))", sizeApp, sizeelAt(fmt.Sprintf("(s-len %s)", s))), sizeApp))
 		case Rec:
 			r := g.s.record(t.Name)
 			encBody, sizeBody := g.recBodies(r, c)
-			fmt.Fprintf(w, "(assert (forall (%s (t Tr) %s) (! (= (%s %s t %s) %s) :pattern ((%s %s t %s)))))\n", HP, decl, encF, HA, ca, encBody, encF, HA, ca)
-			fmt.Fprintf(w, "(assert (forall (%s %s) (! (= (%s %s %s) %s) :pattern ((%s %s %s)))))\n", HP, decl, sizeF, HA, ca, sizeBody, sizeF, HA, ca)
-			var wfs []string
-			wfs = append(wfs, fmt.Sprintf("(%s %s)", g.fn("wfHs", ""), HA))
+			w.WriteString(axiom([]string{HP, "(t Tr)", decl}, fmt.Sprintf("(= %s %s)", encApp, encBody), encApp))
+			w.WriteString(axiom([]string{HP, decl}, fmt.Sprintf("(= %s %s)", sizeApp, sizeBody), sizeApp))
+			wfs := []string{g.wfHs(id)}
 			for i, srt := range g.flat(t) {
 				if srt == "Slice" {
 					wfs = append(wfs, fmt.Sprintf("(wf-slice %s)", c[i]))
 				}
 			}
-			fmt.Fprintf(w, "(assert (forall (%s %s) (! (=> (and %s) (>= (%s %s %s) 0)) :pattern ((%s %s %s)))))\n", HP, decl, strings.Join(wfs, " "), sizeF, HA, ca, sizeF, HA, ca)
+			w.WriteString(axiom([]string{HP, decl}, fmt.Sprintf("(=> (and %s) (>= %s 0))", strings.Join(wfs, " "), sizeApp), sizeApp))
 		}
 	}
 }
@@ -380,7 +523,7 @@ func (g *SpecGen) recBodies(r *Record, c []string) (enc, size string) {
 			idx[f.Name] = i
 		}
 		sort.SliceStable(fs, func(i, j int) bool { return fs[i].Index < fs[j].Index })
-		self := fmt.Sprintf("(%s %s %s)", g.fn("size", r.Name), g.ha(), strings.Join(c, " "))
+		self := app(g.fn("size", r.Name), g.ha(r.Name), strings.Join(c, " "))
 		tr := fmt.Sprintf("(Ew4 t (u32w (- %s 4)))", self)
 		sizes := []string{"5"}
 		for _, f := range fs {
@@ -389,13 +532,17 @@ func (g *SpecGen) recBodies(r *Record, c []string) (enc, size string) {
 			}
 			p := c[idx[f.Name]]
 			val := g.loadAt(f.Type, p)
+			if f.Type.Kind == Prim && f.Type.Name == "guid" {
+				// new([16]byte) is an array object of its own: its bytes live in the byte heap at (ref, 0..15)
+				val = []string{fmt.Sprintf("(arr16at %s %s)", g.h("E$uint8"), p)}
+			}
 			present := fmt.Sprintf("(not (= %s (mk-loc 0 0)))", p)
 			tr = fmt.Sprintf("(ite %s %s %s)", present, g.encTerm(f.Type, fmt.Sprintf("(snoc %s %d)", tr, f.Index), val), tr)
 			sizes = append(sizes, fmt.Sprintf("(ite %s (+ 1 %s) 0)", present, g.sizeTerm(f.Type, val)))
 		}
 		return fmt.Sprintf("(snoc %s 0)", tr), sum(sizes)
 	case Union:
-		self := fmt.Sprintf("(%s %s %s)", g.fn("size", r.Name), g.ha(), strings.Join(c, " "))
+		self := app(g.fn("size", r.Name), g.ha(r.Name), strings.Join(c, " "))
 		hdr := fmt.Sprintf("(Ew4 t (u32w (- %s 5)))", self)
 		enc, size = hdr, "4"
 		type br struct {
@@ -467,61 +614,37 @@ func (g *SpecGen) Generate() error {
 		}
 		g.collect(R(r.Name))
 	}
-	// heap bundle: every record type plus every non-record type that can live in the heap
-	seen := map[string]bool{}
-	var tes []string
-	add := func(te string) {
-		if !seen[te] {
-			seen[te] = true
-			tes = append(tes, te)
-		}
-	}
-	add("byte")
-	for _, id := range g.order {
-		t := g.used[id]
-		if t.Kind == Rec {
-			add(GoTypeName(t.Name, g.o))
-		} else if t.Kind != MapK {
-			add(t.GoType(g.o))
-		} else {
-			add(t.GoType(g.o))
-			add("M$dom")
-			add("M$len")
-		}
-	}
-	bundle := "H_" + g.pfx
+	g.computeReadSets()
 	fmt.Fprintf(&g.ctr, "//go:build verif\n\n// Contracts derived from the schema description %s (options %s) by /verif's spec generator.\npackage %s\n\n", g.s.Name, g.o, g.s.Name)
-	g.line("heaps %s: %s", bundle, strings.Join(tes, ", "))
 	for _, id := range g.order {
 		t := g.used[id]
 		gt := t.GoType(g.o)
+		bundle := "H_" + g.pfx + "_" + id
+		var items []string
+		for _, k := range g.rs[id] {
+			items = append(items, "key:"+k+":"+g.ksort[k])
+		}
+		g.line("heaps %s: %s", bundle, strings.Join(items, ", "))
 		g.line("pure func %s(h heap:%s, t Tr, v %s) Tr", g.fn("enc", id), bundle, gt)
 		g.line("pure func %s(h heap:%s, v %s) int", g.fn("size", id), bundle, gt)
 		if t.Kind == Arr && !isByteT(t.Elem) {
 			g.line("pure func %s(h heap:%s, t Tr, s %s, i int) Tr", g.fn("encel", id), bundle, gt)
 			g.line("pure func %s(h heap:%s, s %s, i int) int", g.fn("sizeel", id), bundle, gt)
 		}
-	}
-	var wfm []string
-	for _, te := range tes {
-		if strings.HasPrefix(te, "[]") {
-			wfm = append(wfm, fmt.Sprintf("wfslice(mem(%s)[k])", te))
-		}
-	}
-	for _, r := range g.s.AllRecords() {
-		if r.Kind != Struct {
-			continue
-		}
-		for _, f := range r.Fields {
-			if f.Type.Kind == Arr {
-				wfm = append(wfm, fmt.Sprintf("wfslice(mem(%s.%s)[k])", GoTypeName(r.Name, g.o), GoFieldName(r, f.Name, g.o)))
+		if t.Kind == Rec {
+			// wfH_<R>(): every slice stored in a cell the reference functions of R read is well formed
+			var wfm []string
+			for _, k := range g.rs[id] {
+				if g.ksort[k] == "(Array Loc Slice)" {
+					wfm = append(wfm, fmt.Sprintf("wfslice(memkey(%q, %q)[k])", k, g.ksort[k]))
+				}
+			}
+			if len(wfm) == 0 {
+				g.line("define %s() bool = true", g.fn("wfH", id))
+			} else {
+				g.line("define %s() bool = forall k Loc :: %s", g.fn("wfH", id), strings.Join(wfm, " && "))
 			}
 		}
-	}
-	if len(wfm) == 0 {
-		g.line("define %s() bool = true", g.fn("wfH", ""))
-	} else {
-		g.line("define %s() bool = forall k Loc :: %s", g.fn("wfH", ""), strings.Join(wfm, " && "))
 	}
 	for _, r := range g.s.AllRecords() {
 		g.recordContracts(r)
@@ -533,12 +656,8 @@ func (g *SpecGen) Generate() error {
 	if err := g.e.AddContractFile(path, g.job.PkgPath()); err != nil {
 		return err
 	}
-	g.heaps = g.e.BundleKeys(bundle)
-	for i, h := range g.heaps {
-		g.hidx[h[0]] = i
-	}
 	g.emitSMT()
-	g.e.RawSMTLate = append(g.e.RawSMTLate, g.smt.String())
+	g.e.RawSMTLate[g.job.PkgPath()] = append(g.e.RawSMTLate[g.job.PkgPath()], g.smt.String())
 	if len(g.Errs) > 0 {
 		return fmt.Errorf("spec generator: %s", strings.Join(g.Errs, "; "))
 	}
@@ -547,9 +666,10 @@ func (g *SpecGen) Generate() error {
 
 // walker state for loops
 type walk struct {
-	marks []string // unfolding markers of enclosing loops (needed to bound partial sums)
-	ord   int
-	bytes bool // the record contains byte arrays: carry the frame of the byte heap through loops
+	frames []string // universal frame invariants for heap cells that per-iteration copies may extend
+	marks  []string // unfolding markers of enclosing loops (needed to bound partial sums)
+	ord    int
+	bytes  bool // the record contains byte arrays: carry the frame of the byte heap through loops
 }
 
 // hasByteArr reports whether a value of type t can contain a byte array.
@@ -579,6 +699,42 @@ func (g *SpecGen) hasByteArr(t *Type, seen map[string]bool) bool {
 	return false
 }
 
+// needsByteHeap: the reference functions read the byte heap only when the schema has byte
+// arrays, or message fields whose pointee lives in the byte heap (byte, uint8, guid).
+func (g *SpecGen) needsByteHeap() bool {
+	for _, r := range g.s.AllRecords() {
+		if g.hasByteArr(R(r.Name), map[string]bool{}) {
+			return true
+		}
+		if r.Kind == Message {
+			for _, f := range r.Fields {
+				if f.Type.Kind == Prim && (isByteT(f.Type) || f.Type.Name == "guid") {
+					return true
+				}
+			}
+		}
+	}
+	return false
+}
+
+// copyFrames: with pointer receivers the generated code takes the address of per-iteration
+// copies, which therefore live in the heap; cells read by the reference functions keep
+// their contents at every location allocated before the call.
+func (g *SpecGen) copyFrames(elem *Type) []string {
+	if !g.o.Ptr || elem.Kind != Rec {
+		return nil
+	}
+	gt := g.goType(elem)
+	if gt == nil {
+		return nil
+	}
+	var out []string
+	for _, k := range g.locKeys(gt, nil, nil) {
+		out = append(out, fmt.Sprintf("forall k Loc :: allocated(k) ==> memkey(%q, %q)[k] == old(memkey(%q, %q))[k]", k, g.ksort[k], k, g.ksort[k]))
+	}
+	return out
+}
+
 const byteFrameInv = "forall k Loc :: allocated(k) && ref(k) != ref(buf) ==> mem(byte)[k] == old(mem(byte))[k]"
 
 func (g *SpecGen) recordContracts(r *Record) {
@@ -605,7 +761,7 @@ func (g *SpecGen) sizeContract(r *Record) {
 	n := GoTypeName(r.Name, g.o)
 	V := g.V(g.o.Ptr)
 	g.line("func %s.Size", g.recvSwitch(r))
-	g.line("  requires %s()", g.fn("wfH", ""))
+	g.line("  requires %s()", g.fn("wfH", r.Name))
 	g.line("  requires %s <= 4611686018427387904", g.sizeX(R(r.Name), V))
 	g.line("  ensures result == old(%s)", g.sizeX(R(r.Name), V))
 	w := &walk{ord: 1}
@@ -645,10 +801,16 @@ func (g *SpecGen) walkSize(t *Type, v, pre string, w *walk) {
 	szNext := fmt.Sprintf("oh(%s(ranged(%d), it(%d) + 1))", g.fn("sizeel", t.ID()), k, k)
 	g.line("  invariant loop %d: ranged(%d) == %s", k, k, v)
 	g.line("  invariant loop %d: bodyLen == %s + 4 + %s && UnfI(%s)", k, pre, sz, sz)
+	for _, fr := range append(append([]string(nil), w.frames...), g.copyFrames(t.Elem)...) {
+		g.line("  invariant loop %d: %s", k, fr)
+	}
 	for _, m := range w.marks {
 		g.line("  invariant loop %d: %s", k, m)
 	}
 	saved := w.marks
+	savedF := w.frames
+	w.frames = append(append([]string(nil), w.frames...), g.copyFrames(t.Elem)...)
+	defer func() { w.frames = savedF }()
 	w.marks = append(append([]string(nil), w.marks...), fmt.Sprintf("UnfI(%s)", szNext))
 	g.walkSize(t.Elem, fmt.Sprintf("ranged(%d)[it(%d)]", k, k), fmt.Sprintf("%s + 4 + %s", pre, sz), w)
 	w.marks = saved
@@ -658,9 +820,16 @@ func (g *SpecGen) marshalToContract(r *Record) {
 	V := g.V(g.o.Ptr)
 	self := R(r.Name)
 	g.line("func %s.MarshalBebopTo", g.recvSwitch(r))
-	g.line("  requires %s()", g.fn("wfH", ""))
+	g.line("  requires %s()", g.fn("wfH", r.Name))
 	g.line("  requires len(buf) >= %s && hw(buf) == off(buf)", g.sizeX(self, V))
 	hasB := g.hasByteArr(self, map[string]bool{})
+	if r.Kind == Message {
+		for _, f := range r.Fields {
+			if f.Type.Kind == Prim && (isByteT(f.Type) || f.Type.Name == "guid") {
+				g.line("  requires ref(%s) != ref(buf)", g.fieldExpr(r, f))
+			}
+		}
+	}
 	if hasB {
 		// the destination does not alias any byte array of the value being encoded
 		g.line("  requires forall k Loc :: ref(mem([]byte)[k]) != ref(buf)")
@@ -718,10 +887,16 @@ func (g *SpecGen) walkEnc(t *Type, v, at, tr string, w *walk) {
 	if w.bytes {
 		g.line("  invariant loop %d: %s", k, byteFrameInv)
 	}
+	for _, fr := range append(append([]string(nil), w.frames...), g.copyFrames(t.Elem)...) {
+		g.line("  invariant loop %d: %s", k, fr)
+	}
 	for _, m := range w.marks {
 		g.line("  invariant loop %d: %s", k, m)
 	}
 	saved := w.marks
+	savedF := w.frames
+	w.frames = append(append([]string(nil), w.frames...), g.copyFrames(t.Elem)...)
+	defer func() { w.frames = savedF }()
 	w.marks = append(append([]string(nil), w.marks...), fmt.Sprintf("UnfI(%s)", szNext))
 	g.walkEnc(t.Elem, fmt.Sprintf("ranged(%d)[it(%d)]", k, k), fmt.Sprintf("%s + 4 + %s", at, sz), en, w)
 	w.marks = saved
@@ -731,7 +906,7 @@ func (g *SpecGen) marshalContract(r *Record) {
 	V := g.V(g.o.Ptr)
 	self := R(r.Name)
 	g.line("func %s.MarshalBebop", g.recvSwitch(r))
-	g.line("  requires %s()", g.fn("wfH", ""))
+	g.line("  requires %s()", g.fn("wfH", r.Name))
 	g.line("  requires %s <= 140737488355328", g.sizeX(self, V))
 	g.line("  ensures [SIZE] len(result) == old(%s)", g.sizeX(self, V))
 	g.line("  ensures [ENC] tr(result) == old(%s) && hw(result) == off(result) + len(result)", g.encX(self, "tr.empty", V))
